@@ -8,7 +8,8 @@ operation the model answers *which fresh computation its output must equal* (its
 run from scratch in fresh subprocesses (harness/lib_c15_worker.py) and compared with what the history produced.
 Property oracle: the same comparison with the declared inputs taken from the property's wording (the elemental
 reference of an estimate is that of the molecule its descriptors were obtained for), plus a digest of every live
-library's data before and after every operation (nothing but a merge may change one, and only its destination).
+library's data before and after every operation (nothing but a merge may change one, and only its destination), and
+per-group digests before and after every REFUSED merge (it must change nothing: GroupLibrary.Update is all-or-nothing).
 """
 import os, sys, json, io, contextlib, subprocess, collections, hashlib
 from . import common
@@ -246,13 +247,14 @@ def scripted_histories(U):
         ops += [{'k': 'evaluate', 'est': 1, 'T': t, 'q': q, 'el': None} for t in range(len(TEMPS)) for q in range(len(PLAIN))]
         ops += [{'k': 'evaluate', 'est': 0, 'T': t, 'q': q, 'el': None} for t in range(len(TEMPS)) for q in range(len(PLAIN))]
         out.append(ops)
-    # two merges into one target, the second with overwrite: a library that only ever was a SOURCE must keep its data
+    # two merges into one target, both with overwrite (without it nearly every merge between shipped libraries is refused, and a
+    # refused merge takes nothing over since the repair of FA1): a library that only ever was a SOURCE must keep its data
     ev = lambda e: [{'k': 'evaluate', 'est': e, 'T': t, 'q': q, 'el': None} for t in range(len(TEMPS)) for q in (0, 1, 3)]
     ops = [{'k': 'load', 'L': U.lib_ids['XieGA2022'], 'byPath': False}, {'k': 'load', 'L': U.lib_ids['SalciccioliGA2012'], 'byPath': False},
            {'k': 'load', 'L': U.lib_ids['GRWSurface2018'], 'byPath': False},
            {'k': 'decompose', 'lib': 1, 'm': U.mol('CC[Pt]')}, {'k': 'estimate', 'lib': 1, 'from': 3, 'forMol': U.mol('CC[Pt]')}]
     ops += ev(0)
-    ops += [{'k': 'merge', 'dst': 0, 'src': 1, 'ow': False}, {'k': 'merge', 'dst': 0, 'src': 2, 'ow': True},
+    ops += [{'k': 'merge', 'dst': 0, 'src': 1, 'ow': True}, {'k': 'merge', 'dst': 0, 'src': 2, 'ow': True},
             {'k': 'decompose', 'lib': 1, 'm': U.mol('CC[Pt]')}, {'k': 'estimate', 'lib': 1, 'from': len(ops) + 2, 'forMol': U.mol('CC[Pt]')}]
     ops += ev(1) + ev(0)
     out.append(ops)
@@ -995,13 +997,15 @@ def replay(ctx, rec, fresh=None, U=None, f1_fixed=None):
 
 LEVEL_TEXT = ('Lean 4 theorems, for every behaviour of the external components and every history of any length: the output of the '
               'last operation is the function `outOf` of its declared inputs (files; scheme and molecule; library data and mapping; '
-              'data, mapping, temperature, quantity); no operation but a merge into it changes a library\'s data; the elemental '
+              'data, mapping, temperature, quantity); no operation but a merge into it changes a library\'s data, and a merge that is refused '
+              'changes nothing at all (it can be deleted from any history); the elemental '
               'reference uses the last molecule decomposed with the library before the estimate was made and nothing else; the '
               'statement "for the estimate\'s molecule" is refuted on the model (F26) and proved under the guard that makes it true. '
               'The model is tied to the code by running random histories on the real objects and comparing every output with a '
               'fresh-process run of the declared inputs the model names. Right level: the quantifier is over all histories.')
 LEVEL_NOTE = ('Trusted: Lean kernel; standard axioms; the harness and its fresh-process runner; that the files and environment do '
-              'not change during a run. Modelled, not verified: which state Load, GetDescriptors, Estimate, get_*, Update read and write. '
+              'not change during a run. Modelled, not verified: which state Load, GetDescriptors, Estimate, get_*, Update read and write '
+              '(Update: refused and nothing stored, or merged — the shape the C13 model of the method is proved to have). '
               'External behaviour (YAML, RDKit, thermochemistry, merge) is a parameter of every theorem. F26 is a recorded finding '
               '(known); F1 and F12 cases are counted and not reported here.')
 TECHNIQUE = 'Lean 4 proof over a hand-written state-machine model + symbolic model execution compared with fresh-process runs of the declared inputs'
